@@ -14,6 +14,9 @@ pub const F_FAST_POLL: u32 = 4;
 pub const F_FAST_SHUTDOWN: u32 = 8;
 /// reproducible hasher seeds: hash buckets and version-clock shards are a function of the key alone
 pub const F_FIXED_HASHER: u32 = 16;
+/// scheduling points after every update of the memory-usage counter (they lie inside the hash-bucket guard:
+/// only for programs whose threads work on keys of pairwise distinct buckets)
+pub const F_MEM_POINTS: u32 = 32;
 
 #[derive(Clone, Debug)]
 pub enum IoEv {
@@ -295,6 +298,7 @@ impl Handler for Session {
             "fast_poll" => f & F_FAST_POLL != 0,
             "fast_shutdown" => f & F_FAST_SHUTDOWN != 0,
             "fixed_hasher" => f & F_FIXED_HASHER != 0,
+            "mem_points" => f & F_MEM_POINTS != 0,
             "uring_cqe_hidden" => self.fault.lock().uring_hidden,
             "uring_enter_intr" | "uring_enter_fail" | "uring_sq_full" | "uring_cqe_error" | "uring_cqe_short" => {
                 let mut f = self.fault.lock();
